@@ -41,8 +41,9 @@ theorem run_inv {σ σ' : St} (h : Inv σ) (r : Run σ σ') : Inv σ' := by
 
 /-- **C06, safety.** In every state reachable from a fresh thread by any interleaving of collector
     increments and contract-abiding mutator steps, every object reachable from the roots (operand
-    stack, locals, in-flight string operands; closures and channel contents through their
-    objects) is still allocated. -/
+    stack, locals, in-flight string operands; what a closure captured through the closure object)
+    is still allocated.  (Since fix 97d7808 a queued channel message is a snapshot owned by the
+    channel, not an object of any thread's heap: a channel object has no children.) -/
 theorem C06_gc_safe {σ : St} (r : Run init σ) : Safe σ :=
   inv_safe (run_inv init_inv r)
 
@@ -105,8 +106,10 @@ theorem reach_congr {σ τ : St} (hr : τ.roots = σ.roots) (hc : ∀ x, τ.chil
   | step _ hc' ih => exact Reach.step ih (by rw [← hc]; exact hc')
 
 /-- **C06, transparency.** A collector increment leaves the roots, the children of every object and
-    hence the reachable graph exactly as they were, and (by safety) every reachable object allocated:
-    the program observes the same values as with collection disabled. -/
+    hence the reachable graph exactly as they were, and (by safety) every reachable object allocated.
+    This is the model-level content of "the program behaves as with collection disabled": everything
+    the mutator can read (roots, children of reachable objects) is unchanged by an increment; that the
+    real program's OUTPUT is the same is checked by the harness (runs with collection disabled), not proved. -/
 theorem C06_gc_transparent {σ : St} (h : Inv σ) :
     (gcStep σ).roots = σ.roots ∧ (∀ x, (gcStep σ).children x = σ.children x) ∧
     (∀ a, Reach (gcStep σ) a ↔ Reach σ a) ∧ (∀ a, Reach σ a → a ∈ (gcStep σ).heap) := by
